@@ -88,6 +88,10 @@ def finish(cx, t0, seed=0):
         nv = sum(1 for o in cx.obs if o.rule == rid and not o.ok)
         print("   %-8s %-5s instances=%-3d%s violated=%d  %s" % (
             rid, r["kind"], r["instances"], (" floor=%d" % r["floor"]) if "floor" in r else "", nv, r["text"]))
+    import os as _os
+    if _os.environ.get("VCHECK_VERBOSE"):
+        for o in cx.obs:
+            print("   %s [%s] %s%s" % ("ok  " if o.ok else "FAIL", o.key, o.desc[:200], (" @" + o.loc) if o.loc else ""))
     for n in cx.notes:
         print("   NOTE " + n)
     rc = 0
